@@ -193,6 +193,11 @@ func (tg *txnGen) txn(maxOps int) []TOp {
 			return ops
 		}
 	}
+	if g.Chance(0.05) {
+		if ops := tg.reinsert(); len(ops) > 0 {
+			return ops
+		}
+	}
 	n := 1 + g.Intn(maxOps)
 	pending := map[string][]string{}
 	var ops []TOp
@@ -486,6 +491,57 @@ func (tg *txnGen) mixedDelete() []TOp {
 		return ops
 	}
 	return nil
+}
+
+// reinsert: a row inserted, deleted and inserted again under one uuid within a transaction, then changed: the row of
+// the second insert is there for the operations that follow.
+func (tg *txnGen) reinsert() []TOp {
+	g := tg.g
+	var roots []*dyn.Table
+	for i := range tg.sc.Tables {
+		if tg.sc.Tables[i].IsRoot {
+			roots = append(roots, &tg.sc.Tables[i])
+		}
+	}
+	if len(roots) == 0 {
+		return nil
+	}
+	t := roots[g.Intn(len(roots))]
+	u := tg.fresh()
+	byU := []Cond{{Col: "_uuid", Fn: "==", Arg: val.VA(val.Uuid(u))}}
+	row := func() map[string]val.Val {
+		r := map[string]val.Val{}
+		for _, c := range t.Cols {
+			if c.RefTable == "" && c.VRefTable == "" && g.Chance(0.5) {
+				r[c.Name] = tg.value(c, nil)
+			}
+		}
+		for _, idx := range t.Indexes {
+			for _, cn := range idx {
+				r[cn] = tg.value(*t.Col(cn), nil)
+			}
+		}
+		return r
+	}
+	ops := []TOp{{Kind: "insert", Table: t.Name, UUID: u, Row: row()}, {Kind: "delete", Table: t.Name, Where: byU}, {Kind: "insert", Table: t.Name, UUID: u, Row: row()}}
+	switch g.Intn(4) {
+	case 0:
+		ops = append(ops, TOp{Kind: "delete", Table: t.Name, Where: byU})
+	case 1:
+		ops = append(ops, TOp{Kind: "select", Table: t.Name, Where: byU})
+	default:
+		var cols []val.Col
+		for _, c := range t.Cols {
+			if !c.Immutable && c.RefTable == "" && c.VRefTable == "" {
+				cols = append(cols, c)
+			}
+		}
+		if len(cols) > 0 {
+			c := cols[g.Intn(len(cols))]
+			ops = append(ops, TOp{Kind: "update", Table: t.Name, Where: byU, Row: map[string]val.Val{c.Name: tg.value(c, nil)}})
+		}
+	}
+	return ops
 }
 
 func (tg *txnGen) swap() []TOp {
